@@ -67,6 +67,17 @@ pub fn gen_value(r: &mut Rng) -> String {
             s
         }
         3 => format!("{}", r.next_u64()),
+        4 if r.chance(1, 2) => {
+            // long text of multi-byte characters at a random byte alignment (anything that cuts a value at a fixed
+            // byte offset - a log excerpt, a size limit - meets the middle of a character)
+            let mut s = "x".repeat(r.below(4));
+            let chars = ['é', 'ß', '日', '本', '😀', 'Ж', 'ا', '€'];
+            let n = *r.pick(&[30usize, 70, 130, 260, 520, 1030, 4100]);
+            while s.len() < n {
+                s.push(chars[r.below(chars.len())]);
+            }
+            s
+        }
         _ => gen_text(r, 30),
     }
 }
